@@ -173,21 +173,23 @@ const oracle = "oracle: reference automaton written from the method documentatio
 // TestEnum enumerates all operation sequences up to the tier's bounds.
 func TestEnum(t *testing.T) {
 	rec := h.Begin("C09", "enum")
-	df, dp := h.Pick(3, 4), h.Pick(2, 3)
-	rec.SetRule(fmt.Sprintf("exhaustive: every sequence p.w over the complete alphabet of mach.Alphabet (41 concrete operations for two participants, 40 with the payment app) with p = empty and |w| <= %d, and p one of 14 canonical protocol prefixes that reach every phase (mach.Prefixes) and |w| <= %d; two participants, own index 0 and 1, no-app and payment app; no state merging, every sequence runs on a fresh machine; ", df, dp)+oracle, assumptions...)
+	b := mach.Bounds{Fresh: h.Pick(3, 4), FreshPayment: 3, Prefixed: h.Pick(2, 3)}
+	rec.SetRule(fmt.Sprintf("exhaustive: every sequence p.w over the complete alphabet of mach.Alphabet (41 concrete operations for two participants, 40 with the payment app) with p = empty and |w| <= %d (payment app: <= %d), and p one of 14 canonical protocol prefixes that reach every phase (mach.Prefixes) and |w| <= %d; two participants, own index 0 and 1, no-app and payment app; no state merging, every sequence runs on a fresh machine; ", b.Fresh, b.FreshPayment, b.Prefixed)+oracle, assumptions...)
 	rec.SetExhaustive(true)
 	defer rec.Flush()
 	sh, n := h.Shard()
-	total := mach.Enumerate(df, dp, sh, n, func(cfg mach.Config, prefix string, plen int, ops []mach.Op) bool {
+	run := 0
+	total := mach.Enumerate(b, sh, n, func(cfg mach.Config, prefix string, plen int, ops []mach.Op) bool {
 		c := mach.Case{Cfg: cfg, Ops: ops}
 		o := runCase(c)
 		o.Class("prefix:" + prefix)
 		rec.Report(t, c, o)
+		run++
 		return !rec.Failed()
 	})
-	rec.Extra("enum_space_sequences", total)
-	rec.Extra("enum_depth_fresh", df)
-	rec.Extra("enum_depth_after_prefix", dp)
+	// numeric extras are summed over the shards by the driver, texts are not
+	rec.Extra("enum_sequences_run", run)
+	rec.Extra("enum_space", fmt.Sprintf("%d sequences (bounds: fresh <= %d, fresh with payment app <= %d, after a prefix <= %d)", total, b.Fresh, b.FreshPayment, b.Prefixed))
 }
 
 // TestRandom runs long random sequences.
